@@ -141,7 +141,69 @@ def pool_semantics():
     return bad
 
 
+def _peek_registry(_x):
+    # what a worker sees of a module-level container of the library
+    import cooler._logging as cl
+    return sorted(k for k in cl._loggers if str(k).startswith("coolsim-modeltest"))
+
+
+def _poke_registry(tag):
+    # a worker's own addition to the container
+    import cooler._logging as cl
+    cl._loggers["coolsim-modeltest-" + tag] = None
+    return True
+
+
+def fork_state():
+    """A forked worker holds the library's module-level containers as they were at fork time and
+    its own changes stay its own: the simulator's per-process views against a real fork()ed pool."""
+    import cooler._logging as cl
+    import multiprocess as mp
+
+    from . import kernel, seams
+
+    bad = 0
+    d = tempfile.mkdtemp()
+
+    def scenario(pool):
+        out = {}
+        cl._loggers["coolsim-modeltest-before"] = None         # set before ... no: pools exist already
+        out["parent-change-after-fork seen by worker"] = pool.map(_peek_registry, [0])[0]
+        pool.map(_poke_registry, ["w"])
+        out["worker-change seen by parent"] = sorted(k for k in cl._loggers if str(k).startswith("coolsim-modeltest"))
+        return out
+
+    def clean():
+        for k in [k for k in cl._loggers if str(k).startswith("coolsim-modeltest")]:
+            del cl._loggers[k]
+
+    try:
+        clean()
+        cl._loggers["coolsim-modeltest-atfork"] = None
+        with mp.Pool(1) as rp:
+            real = scenario(rp)
+        clean()
+        cl._loggers["coolsim-modeltest-atfork"] = None
+        sim = seams.new_sim(random.Random(5), "uniform", d)
+        kernel.activate(sim)
+        try:
+            sp = seams.SimPool(1)
+            simr = scenario(sp)
+            sp.close()
+            sim.drain()
+        finally:
+            kernel.deactivate()
+        clean()
+        for k in real:
+            ok = real[k] == simr[k]
+            bad += 0 if ok else 1
+            print("fork state, %s: real=%r sim=%r %s" % (k, real[k], simr[k], "" if ok else "MISMATCH"))
+    finally:
+        shutil.rmtree(d)
+    return bad
+
+
 if __name__ == "__main__":
-    b = flock_table() + pool_semantics()
+    b = flock_table() + pool_semantics() + fork_state()
     print("model tests:", "OK" if b == 0 else "%d MISMATCHES" % b)
     sys.exit(1 if b else 0)
